@@ -12,15 +12,21 @@ that, so it is modelled explicitly here:
 * `objs`  — the live top-level objects (`Handle ↦ {bases : List BasisId, cps : BufId, dimension,
   rational}`).  Objects never die in the model (garbage collection cannot create aliasing).
 
-Every public operation of the library is given a **contract** (`Contract`); the relations
-`InPlaceStep` / `FreshStep` say what a heap transition may do under each contract, and `step`
-is an executable transition function that performs exactly such transitions (for arbitrary
-payloads: the *values* written are irrelevant, only *where* they are written).
+Every public operation of the library is given a **contract** (`Contract`).
+* The relations `InPlaceStep` / `FreshStep` / `QueryStep` say what a heap transition may DO under
+  each contract (allocate; overwrite only cells owned by the receiver; reference only owned or
+  freshly allocated cells).  Well-formedness of the result is proved from them, not assumed.
+* `exec` performs, literally, a contract-agnostic operation description `RawOp` that is given the
+  operand references: it CAN alias operand cells, write through operands and return views, so
+  contract violations are expressible (and refuted in `Splipy/Properties/C11.lean`).
+  `RawOp.respects c` (decidable) says when such an operation is an instance of contract `c`; the
+  *values* written are irrelevant, only *where* they are written.
 
-What is proved about this model is in `Splipy/Lemmas/C11Heap.lean` and `Splipy/Properties/C11.lean`.
+What is proved about this model is in `Splipy/Lemmas/C11*.lean` and `Splipy/Properties/C11.lean`.
 That a given Python operation really behaves as its contract says is **not** proved from the
-Python source: it is the premise that the correspondence run (harness/props/C11.py) validates
-dynamically for every operation × operand class.
+Python semantics: it is the premise that the correspondence run (harness/props/C11.py) validates
+dynamically for every operation × operand class, and that the source-derived effect summaries
+(`Consistent`, below) check statically.
 -/
 
 namespace Splipy.Heap
@@ -132,33 +138,48 @@ inductive Entry where
   | exempt (e : Exemption)
   deriving DecidableEq, Repr, Inhabited
 
-/-! ### Relational semantics of the contracts
+/-! ### Relational semantics of the contracts: what an operation may DO
 
 `InPlaceStep h h' i` : the transition `h ⟶ h'` is allowed by the in-place contract with receiver
-`i`: it may overwrite buffers and basis records *owned by the receiver*, allocate new ones, and
-rebind the receiver's fields to things it already owned or that are fresh.  Nothing else changes.
+`i`.  It may
+* allocate cells (the stores only grow),
+* overwrite buffers and basis records **owned by the receiver** — every other pre-existing cell is
+  unchanged (frame conditions),
+* rebind the receiver's fields to cells it already owned or to freshly allocated cells,
+and every reference it writes (the receiver's new fields, the `knots` field of a record it wrote or
+allocated) points to an allocated cell — Python cannot forge a reference.  Nothing else changes.
 
 `FreshStep h h'` : the transition only *allocates*: new buffers, new records, and new objects all
-of whose references are fresh (and mutually disjoint).  With no new object this is the `query`
-contract (a fresh result array). -/
+of whose references point to cells allocated by this very step (and which are mutually disjoint).
+With no new object this is the `query` contract (a fresh result array).
+
+Well-formedness of `h'` is NOT part of these relations: it is proved from them
+(`InPlaceStep.wf`, `FreshStep.wf` in `Splipy/Lemmas/C11Steps.lean`). -/
 
 def InPlaceStep (h h' : Heap) (i : Nat) : Prop :=
   ∃ a a', h.objs[i]? = some a ∧ h'.objs = h.objs.set i a' ∧
+    -- allocation only grows the stores
     h.bufs.length ≤ h'.bufs.length ∧ h.recs.length ≤ h'.recs.length ∧
+    -- frame: cells not owned by the receiver are untouched
     (∀ x, x < h.bufs.length → x ∉ ownBufs h a → h'.bufs[x]? = h.bufs[x]?) ∧
     (∀ r, r < h.recs.length → r ∉ a.bases → h'.recs[r]? = h.recs[r]?) ∧
-    (∀ r ∈ a'.bases, r ∈ a.bases ∨ h.recs.length ≤ r) ∧
-    (∀ x ∈ ownBufs h' a', x ∈ ownBufs h a ∨ h.bufs.length ≤ x) ∧
-    WF h'
+    -- the receiver's new references: owned before, or freshly allocated by this step
+    (∀ r ∈ a'.bases, r ∈ a.bases ∨ (h.recs.length ≤ r ∧ r < h'.recs.length)) ∧
+    (a'.cps ∈ ownBufs h a ∨ (h.bufs.length ≤ a'.cps ∧ a'.cps < h'.bufs.length)) ∧
+    -- records written or allocated by this step reference buffers owned before or freshly allocated
+    (∀ r rec, h'.recs[r]? = some rec → (r ∈ a.bases ∨ h.recs.length ≤ r) →
+        rec.knots ∈ ownBufs h a ∨ (h.bufs.length ≤ rec.knots ∧ rec.knots < h'.bufs.length))
 
 def FreshStep (h h' : Heap) : Prop :=
   ∃ (news : List Obj) (bufs' : List (List Int)) (recs' : List BasisRec),
     h'.objs = h.objs ++ news ∧ h'.bufs = h.bufs ++ bufs' ∧ h'.recs = h.recs ++ recs' ∧
-    (∀ o ∈ news, h.bufs.length ≤ o.cps ∧ ∀ r ∈ o.bases, h.recs.length ≤ r) ∧
-    (∀ r ∈ recs', h.bufs.length ≤ r.knots) ∧
+    -- new objects and new records reference only cells allocated by this step
+    (∀ o ∈ news, (h.bufs.length ≤ o.cps ∧ o.cps < h'.bufs.length) ∧
+        ∀ r ∈ o.bases, h.recs.length ≤ r ∧ r < h'.recs.length) ∧
+    (∀ r ∈ recs', h.bufs.length ≤ r.knots ∧ r.knots < h'.bufs.length) ∧
+    -- and the new objects are mutually disjoint
     (∀ (i j : Nat) (a b : Obj), i ≠ j → news[i]? = some a → news[j]? = some b →
-      (∀ x ∈ ownBufs h' a, x ∉ ownBufs h' b) ∧ (∀ r ∈ a.bases, r ∉ b.bases)) ∧
-    WF h'
+      (∀ x ∈ ownBufs h' a, x ∉ ownBufs h' b) ∧ (∀ r ∈ a.bases, r ∉ b.bases))
 
 /-- `query` contract: a `FreshStep` that creates no object and no basis record. -/
 def QueryStep (h h' : Heap) : Prop :=
@@ -263,22 +284,70 @@ def allocObj (h : Heap) (s : ObjSpec) : Heap where
                        dimension := s.dimension
                        rational := s.rational }]
 
-def allocObjs (h : Heap) (ss : List ObjSpec) : Heap := ss.foldl allocObj h
-
 /-- Allocate one result array. -/
 def allocBuf (h : Heap) (d : List Int) : Heap := { h with bufs := h.bufs ++ [d] }
 
-/-- An operation instance: its contract together with the operand handles and the payload
-    (the values written / allocated — arbitrary). -/
-inductive Op where
-  /-- `query`: returns a scalar (`payload = none`) or a fresh array -/
-  | query (args : List Nat) (payload : Option (List Int))
-  /-- `fresh`: returns new objects -/
-  | fresh (args : List Nat) (news : List ObjSpec)
-  /-- `inPlace` (`returnsSelf = true`) / `procedure` (`false`): program of writes through `recv` -/
-  | inPlace (recv : Nat) (others : List Nat) (prog : List Prim) (returnsSelf : Bool)
-  /-- `procedureAll`: a program of writes through each operand -/
-  | inPlaceAll (progs : List (Nat × List Prim))
+/-! ## Operations as Python could write them: conforming or not
+
+`RawOp` is a contract-AGNOSTIC description of what one call does to the heap, given the operand
+references `args`: it may write through ANY handle, it may build new objects and then rebind their
+fields to cells of the operands (`Act.aliasCps`, `Act.aliasBasis` — a view / a shared basis record),
+and it may return a view of an operand's buffer.  `exec` performs it literally, so an operation that
+violates its contract is expressible and really breaks the invariant / the isolation (see the
+refutation examples in `Splipy/Properties/C11.lean`).  `RawOp.respects c` is the (decidable)
+condition under which such an operation is an instance of contract `c`; the theorems are about
+`exec` on operations that respect their contract. -/
+
+/-- One action through an acting handle `self`. -/
+inductive Act where
+  /-- a write of the receiver's own state (`Prim`) -/
+  | prim (p : Prim)
+  /-- `self.controlpoints = src.controlpoints` (or a view of it): ALIASES another object's buffer -/
+  | aliasCps (src : Nat)
+  /-- `self.bases[k] = src.bases[ks]` : SHARES another object's basis record -/
+  | aliasBasis (k src ks : Nat)
+  deriving DecidableEq, Repr, Inhabited
+
+def Act.conforming : Act → Bool
+  | .prim _ => true
+  | _ => false
+
+def applyAct (h : Heap) (i : Nat) : Act → Heap
+  | .prim p => applyPrim h i p
+  | .aliasCps src =>
+      match h.objs[i]?, h.objs[src]? with
+      | some a, some b => { h with objs := h.objs.set i { a with cps := b.cps } }
+      | _, _ => h
+  | .aliasBasis k src ks =>
+      match h.objs[i]?, (h.objs[src]?).bind (fun b => b.bases[ks]?) with
+      | some a, some r => { h with objs := h.objs.set i { a with bases := a.bases.set k r } }
+      | _, _ => h
+
+def applyActs (h : Heap) (i : Nat) (acts : List Act) : Heap := acts.foldl (fun h a => applyAct h i a) h
+
+/-- What the call returns. -/
+inductive Ret where
+  | none
+  | scalar
+  /-- a freshly allocated array -/
+  | newBuffer (data : List Int)
+  /-- a VIEW of the control points of the live object `h` (what `section()` returned in its point
+      case before it was repaired) -/
+  | bufferOf (h : Nat)
+  /-- the objects built by this call -/
+  | newObjects
+  /-- the first operand -/
+  | receiver
+  deriving DecidableEq, Repr, Inhabited
+
+structure RawOp where
+  /-- the operand references, receiver first -/
+  args : List Nat
+  /-- actions through existing handles, in order -/
+  writes : List (Nat × List Act)
+  /-- objects built: allocated from fresh cells (copying constructor), then acted upon -/
+  news : List (ObjSpec × List Act)
+  ret : Ret
   deriving Repr, Inhabited
 
 /-- What an operation returns, as far as the heap is concerned. -/
@@ -289,15 +358,55 @@ inductive Result where
   | handles (hs : List Nat)
   deriving DecidableEq, Repr, Inhabited
 
-def step (h : Heap) : Op → Heap × Result
-  | .query _ none => (h, .scalar)
-  | .query _ (some d) => (allocBuf h d, .buffer h.bufs.length)
-  | .fresh _ news => (allocObjs h news, .handles (List.range' h.objs.length news.length))
-  | .inPlace recv _ prog rs => (applyProg h recv prog, if rs then .handles [recv] else .none)
-  | .inPlaceAll progs => (progs.foldl (fun h p => applyProg h p.1 p.2) h, .none)
+def applyWrites (h : Heap) (ws : List (Nat × List Act)) : Heap :=
+  ws.foldl (fun h w => applyActs h w.1 w.2) h
 
-/-- Run a history from a given heap. -/
-def run (h : Heap) (ops : List Op) : Heap := ops.foldl (fun h op => (step h op).1) h
+/-- Build one object: the copying constructor, then the actions through the new handle. -/
+def buildObj (h : Heap) (n : ObjSpec × List Act) : Heap :=
+  applyActs (allocObj h n.1) h.objs.length n.2
+
+def buildObjs (h : Heap) (ns : List (ObjSpec × List Act)) : Heap := ns.foldl buildObj h
+
+/-- Perform an operation literally. -/
+def exec (h : Heap) (op : RawOp) : Heap × Result :=
+  let h1 := applyWrites h op.writes
+  let h2 := buildObjs h1 op.news
+  match op.ret with
+  | .none => (h2, .none)
+  | .scalar => (h2, .scalar)
+  | .newBuffer d => (allocBuf h2 d, .buffer h2.bufs.length)
+  | .bufferOf x => (h2, match h2.objs[x]? with | some a => .buffer a.cps | none => .none)
+  | .newObjects => (h2, .handles (List.range' h1.objs.length op.news.length))
+  | .receiver => (h2, match op.args with | r :: _ => .handles [r] | [] => .none)
+
+/-- All actions are writes of the acting handle's own state. -/
+def RawOp.conforming (op : RawOp) : Bool :=
+  op.writes.all (fun w => w.2.all Act.conforming) && op.news.all (fun n => n.2.all Act.conforming)
+
+/-- The handles contract `c` allows operation `op` to write through. -/
+def RawOp.receivers (c : Contract) (op : RawOp) : List Nat :=
+  match c with
+  | .query => []
+  | .fresh => []
+  | .inPlace => op.args.take 1
+  | .procedure => op.args.take 1
+  | .procedureAll => op.args
+
+/-- **Is `op` an instance of contract `c`?**  All actions conform; writes go only through the
+    receivers the contract allows; only `fresh` builds objects; and the return value is the one the
+    contract promises (never a view of an operand). -/
+def RawOp.respects (c : Contract) (op : RawOp) : Bool :=
+  op.conforming &&
+  op.writes.all (fun w => (op.receivers c).contains w.1) &&
+  (match c with
+   | .query => op.news.isEmpty && (match op.ret with | .none => true | .scalar => true | .newBuffer _ => true | _ => false)
+   | .fresh => (match op.ret with | .newObjects => true | .none => true | .newBuffer _ => true | _ => false)
+   | .inPlace => op.news.isEmpty && !op.args.isEmpty && op.ret == .receiver
+   | .procedure => op.news.isEmpty && op.ret == .none
+   | .procedureAll => op.news.isEmpty && op.ret == .none)
+
+/-- Run a history of (contract, operation) pairs. -/
+def run (h : Heap) (hist : List (Contract × RawOp)) : Heap := hist.foldl (fun h e => (exec h e.2).1) h
 
 /-! ## The observables predicted for the correspondence run -/
 
@@ -436,14 +545,5 @@ def Effect.fullyChecked (e : Effect) : Bool :=
 
 /-- Analysed, but some aspect is `unknown`. -/
 def Effect.partlyChecked (e : Effect) : Bool := e.analysed && !e.fullyChecked
-
-/-- A step that VIOLATES the contracts (used only in examples, to show that the invariant and the
-    isolation theorem are not vacuous): hand out an object whose control points are a *view* of
-    the operand's buffer — the unfixed shape of `section()`'s point case (it returned
-    `self.controlpoints[slices]` without a copy before the fix; the check reports it again should it return). -/
-def aliasView (h : Heap) (i : Nat) : Heap :=
-  match h.objs[i]? with
-  | none => h
-  | some a => { h with objs := h.objs ++ [{ bases := [], cps := a.cps, dimension := a.dimension, rational := a.rational }] }
 
 end Splipy.Heap
